@@ -35,6 +35,8 @@ type Case struct {
 	Register     []string   `json:"register,omitempty"` // object types bound with RegisterType
 	Faults       []hx.Fault `json:"faults,omitempty"`
 	Echo         bool       `json:"echo,omitempty"`
+	// Scribble: every resolver overwrites the arguments it was given once it has its value
+	Scribble bool `json:"scribble,omitempty"`
 	// Universe: reflection nodes are instances of the fixed Go types of universe.go instead of
 	// reflect.StructOf types; GoType maps a GraphQL object type to its Go type ("Alpha", ...);
 	// Rename maps "Type.field" to the Go field/method it is registered to (RegisterField).
@@ -119,7 +121,7 @@ type Call struct {
 
 // World is a ggql root wired to fixtures serving the case's graph.
 type World struct {
-	kept *ggql.Executable // the parsed request (KeepParsed)
+	kept            *ggql.Executable // the parsed request (KeepParsed)
 	hiddenHandedOut int64
 	C               *Case
 	Root            *ggql.Root
@@ -243,12 +245,39 @@ func faultErr(f hx.Fault) error {
 	return errInjected
 }
 
+// scribble overwrites an argument value in place, all the way down: members added to and removed
+// from every object, every list member replaced.
+func scribble(v interface{}) {
+	switch tv := v.(type) {
+	case map[string]interface{}:
+		if tv == nil {
+			return
+		}
+		for k, e := range tv {
+			scribble(e)
+			if len(k)%2 == 0 {
+				delete(tv, k)
+			}
+		}
+		tv["zz~"] = "scribbled"
+	case []interface{}:
+		for i, e := range tv {
+			scribble(e)
+			tv[i] = "scribbled"
+		}
+	}
+}
+
 func (w *World) resolveNode(strategy string, id int, field *ggql.Field, args map[string]interface{}) (interface{}, error) {
 	key := field.Alias
 	if key == "" {
 		key = field.Name
 	}
 	nth := w.log(Call{Strategy: strategy, Node: id, Field: field.Name, Key: key, Args: hx.CanonArgs(args), HasArgs: args})
+	if w.C.Scribble {
+		// a resolver that treats what it was given as its own: once done it writes all over it
+		defer scribble(args)
+	}
 	valErr := false
 	if f, bad := w.faults[fkey(id, field.Name)]; bad && f.Kind != "nth" && (f.Call == 0 || f.Call == nth) {
 		if f.Kind != "valerr" {
